@@ -204,7 +204,9 @@ def _plan_case(args):
 CROSS_SQL = ['select * from int1.t1 as t join mindsdb.pred as m', 'select t.a, m.y from int1.t1 as t join mindsdb.pred as m where t.a > 1',
              'select * from int1.t1 as t join mindsdb.pred as m where t.ts > latest', 'select * from mindsdb.pred where a = 1',
              'select * from int1.t1 as t join int2.t2 as u on t.a = u.a', 'select * from int1.t1 as t join mindsdb.pred as m limit 3',
-             'select * from int1.t1 where a in (select a from int2.t2)', 'select a from int1.t1 union select a from int2.t2']
+             'select * from int1.t1 where a in (select a from int2.t2)', 'select a from int1.t1 union select a from int2.t2',
+             'delete from int1.t1 where a = 1', 'insert into int1.t1 (a) select a from int2.t2',
+             'update int1.t1 set a = 1 from (select a from int2.t2) as s where t1.a = s.a', 'select t.a as x, t.b from int1.t1 as t']
 
 
 def _cross_case(sql):
@@ -220,14 +222,43 @@ def _cross_case(sql):
         cats.append(dict(integrations=['int1', 'int2'], default_namespace='mindsdb', predictor_metadata=[pm]))
         cats.append(dict(integrations=[{'name': 'int1', 'type': 'data'}, {'name': 'int2', 'type': 'data'}], default_namespace='mindsdb',
                          predictor_metadata=[dict(pm)]))
+    import re as _re
+    from mindsdb_sql.parser.ast.base import ASTNode
+    # the same statement with the table / column names in another letter case: different names, so nothing built from one
+    # spelling may compare equal to its counterpart built from the other
+    sql_case = _re.sub(r'\b(int[12]\.)(\w+)', lambda m_: m_.group(1) + m_.group(2).capitalize(), sql)
     objs = []
-    for kw in cats:
-        try:
-            p = plan_query(parse_sql(sql, 'mindsdb'), **kw)
-        except Exception:   # noqa
-            continue
-        objs.append(p)
-        objs += list(p.steps)
+    for text in (sql, sql_case):
+        for kw in (cats if text == sql else cats[:1]):
+            try:
+                tree = parse_sql(text, 'mindsdb')
+                p = plan_query(parse_sql(text, 'mindsdb'), **kw)
+            except Exception:   # noqa
+                continue
+            objs.append(p)
+            objs += list(p.steps)
+            if kw is cats[0]:
+                # sub-nodes of the parsed statement and the nodes held by the steps
+                def nodes(o, acc, seen):
+                    if id(o) in seen or o is None or isinstance(o, (str, int, float, bool)):
+                        return
+                    seen.add(id(o))
+                    if isinstance(o, ASTNode):
+                        acc.append(o)
+                    if isinstance(o, (list, tuple)):
+                        for x in o:
+                            nodes(x, acc, seen)
+                    elif isinstance(o, dict):
+                        for x in o.values():
+                            nodes(x, acc, seen)
+                    elif hasattr(o, '__dict__'):
+                        for x in vars(o).values():
+                            nodes(x, acc, seen)
+                acc = []
+                nodes(tree, acc, set())
+                for st_ in p.steps:
+                    nodes(st_, acc, set())
+                objs += [n_ for n_ in acc if type(n_).__name__ in ('Identifier', 'Constant', 'BinaryOperation', 'Function')][:25]
     projs = [jdump(proj(o)) for o in objs]
     out = []
     eqm = {}
